@@ -204,3 +204,14 @@ Definition c20_mb_model (before : graph) (ms : list N) (after : graph) : N :=
   | MbOk es' => if same_wires_b (map wire_of es') (wires after) then 0 else 1
   | _ => 1
   end.
+
+(* end-to-end connections through a SET M of module boundaries: a route passes a boundary on the
+   out-edge whose source port equals the port it arrived on *)
+Inductive route_p (es : list edge) (M : list N) : N -> port -> N -> port -> Prop :=
+| rp_end x q : ~ In x M -> route_p es M x q x q
+| rp_step x q o t pt : In x M -> In o es -> e_src o = x -> port_eqb (e_sport o) q = true ->
+    route_p es M (e_dst o) (e_dport o) t pt -> route_p es M x q t pt.
+
+Definition conn_p (es : list edge) (M : list N) (w : wire) : Prop :=
+  let '(a, pa, t, pt) := w in
+  ~ In a M /\ exists e, In e es /\ e_src e = a /\ e_sport e = pa /\ route_p es M (e_dst e) (e_dport e) t pt.
